@@ -3,6 +3,8 @@ package keeper
 import (
 	"context"
 
+	corestore "cosmossdk.io/core/store"
+
 	"github.com/tellor-io/layer/x/reporter/types"
 
 	"cosmossdk.io/math"
@@ -26,6 +28,13 @@ type vStaking struct {
 	lastSubtract  bool
 	lastDelegator string
 	unbondingTime int64
+	// pools: the bank model (pool-to-pool moves of Delegate) and the ghost ledger of what the staking records
+	// say each pool must hold
+	bank             *vBank
+	ledgerBonded     math.Int
+	ledgerNotBonded  math.Int
+	unbonded         math.Int // tokens taken out of validators by Unbond
+	nUnbond          int
 }
 
 type vValSet struct {
@@ -88,10 +97,91 @@ func (s *vStaking) TotalBondedTokens(context.Context) (math.Int, error) { return
 // Delegate (subtractAccount=false): the caller has already moved / will move the coins between pools; the staking
 // ledger credits the validator. Recorded for the pool-vs-ledger comparison.
 func (s *vStaking) Delegate(ctx context.Context, delAddr sdk.AccAddress, bondAmt math.Int, tokenSrc stakingtypes.BondStatus, validator stakingtypes.Validator, subtractAccount bool) (math.LegacyDec, error) {
+	if s.bank != nil && !subtractAccount {
+		// x/staking v0.50.9 keeper.Delegate, subtractAccount == false: the tokens are assumed to sit in the pool
+		// matching tokenSrc already and are moved to the pool matching the validator's status
+		srcNotBonded := tokenSrc == stakingtypes.Unbonded || tokenSrc == stakingtypes.Unbonding
+		switch {
+		case tokenSrc == stakingtypes.Bonded && validator.IsBonded():
+		case srcNotBonded && !validator.IsBonded():
+		case srcNotBonded && validator.IsBonded():
+			if err := s.bank.SendCoinsFromModuleToModule(ctx, stakingtypes.NotBondedPoolName, stakingtypes.BondedPoolName, sdk.NewCoins(sdk.NewCoin("loya", bondAmt))); err != nil {
+				return math.LegacyDec{}, err
+			}
+		case tokenSrc == stakingtypes.Bonded && !validator.IsBonded():
+			if err := s.bank.SendCoinsFromModuleToModule(ctx, stakingtypes.BondedPoolName, stakingtypes.NotBondedPoolName, sdk.NewCoins(sdk.NewCoin("loya", bondAmt))); err != nil {
+				return math.LegacyDec{}, err
+			}
+		default:
+			panic("unknown token source bond status")
+		}
+		if validator.IsBonded() {
+			s.ledgerBonded = s.ledgerBonded.Add(bondAmt)
+		} else {
+			s.ledgerNotBonded = s.ledgerNotBonded.Add(bondAmt)
+		}
+	}
 	s.delegated = s.delegated.Add(bondAmt)
 	s.nDelegate++
 	s.lastSrc = tokenSrc
 	s.lastSubtract = subtractAccount
 	s.lastDelegator = string(delAddr)
 	return math.LegacyNewDecFromInt(bondAmt), nil
+}
+
+
+// Unbond: x/staking's Unbond as far as the ledger is concerned: the delegation loses the shares, the validator
+// loses RemoveDelShares' tokens (real SDK function); no coins move (the caller moves them).
+func (s *vStaking) Unbond(ctx context.Context, delAddr sdk.AccAddress, valAddr sdk.ValAddress, shares math.LegacyDec) (math.Int, error) {
+	for di, d := range s.dels {
+		if d.DelegatorAddress == delAddr.String() && d.ValidatorAddress == valAddr.String() {
+			if d.Shares.LT(shares) {
+				return math.Int{}, stakingtypes.ErrNotEnoughDelegationShares
+			}
+			for vi, v := range s.vals {
+				if v.OperatorAddress == valAddr.String() {
+					nv, amt := v.RemoveDelShares(shares)
+					s.vals[vi] = nv
+					s.dels[di].Shares = d.Shares.Sub(shares)
+					if v.IsBonded() {
+						s.ledgerBonded = s.ledgerBonded.Sub(amt)
+					} else {
+						s.ledgerNotBonded = s.ledgerNotBonded.Sub(amt)
+					}
+					s.unbonded = s.unbonded.Add(amt)
+					s.nUnbond++
+					return amt, nil
+				}
+			}
+			return math.Int{}, stakingtypes.ErrNoValidatorFound
+		}
+	}
+	return math.Int{}, stakingtypes.ErrNoDelegatorForAddress
+}
+
+// vPowerIter: ValidatorsPowerStoreIterator: the validators' addresses in the order listed (descending power).
+type vPowerIter struct {
+	s *vStaking
+	i int
+}
+
+func (s *vStaking) ValidatorsPowerStoreIterator(ctx context.Context) (corestore.Iterator, error) {
+	return &vPowerIter{s: s}, nil
+}
+func (it *vPowerIter) Domain() (start, end []byte) { return nil, nil }
+func (it *vPowerIter) Valid() bool                 { return it.i < len(it.s.vals) }
+func (it *vPowerIter) Next()                       { it.i++ }
+func (it *vPowerIter) Key() []byte                 { return nil }
+func (it *vPowerIter) Value() []byte {
+	a, err := sdk.ValAddressFromBech32(it.s.vals[it.i].OperatorAddress)
+	if err != nil {
+		panic(err)
+	}
+	return a
+}
+func (it *vPowerIter) Error() error { return nil }
+func (it *vPowerIter) Close() error { return nil }
+
+func newVStaking(bank *vBank) *vStaking {
+	return &vStaking{bank: bank, delegated: math.ZeroInt(), bonded: math.OneInt(), ledgerBonded: math.ZeroInt(), ledgerNotBonded: math.ZeroInt(), unbonded: math.ZeroInt()}
 }
